@@ -271,7 +271,7 @@ pub fn cases(seed: u64, tier: Tier) -> Cases {
     }
     let fixed: Vec<(&str, Value)> = vec![("verif.json", serde_json::from_str(verifgen::IR_SRC).unwrap()), ("test-ir.json", serde_json::from_str(&std::fs::read_to_string("/repo/conjure-test/test-ir.json").unwrap_or_else(|_| "{\"version\":1,\"errors\":[],\"types\":[],\"services\":[],\"extensions\":{}}".into())).unwrap())];
     let cfgs = |rng: &mut Rng, pkg: &str| -> Cfg {
-        Cfg { exhaustive: rng.chance(1, 2), empties: rng.chance(1, 2), strip: match rng.below(3) { 0 => None, 1 => Some(pkg.to_string()), _ => Some(pkg.rsplit_once('.').map(|x| x.0.to_string()).unwrap_or_else(|| pkg.to_string())) }, krate: match rng.below(6) { 0 => Some(("my-product".to_string(), "1.2.3".to_string(), None)), 1 => Some(("my-product".to_string(), "1.2.3".to_string(), Some("9.9.9-rc1".to_string()))), _ => None }, bare: rng.chance(1, 2) }
+        Cfg { exhaustive: rng.chance(1, 2), empties: rng.chance(1, 2), strip: match rng.below(4) { 0 => None, 1 => Some(pkg.to_string()), 2 => Some(pkg.rsplit_once('.').map(|x| x.0.to_string()).unwrap_or_else(|| pkg.to_string())), _ => Some(format!("{}.", pkg)) /* a trailing dot: a last, empty component that no package has */ }, krate: match rng.below(6) { 0 => Some(("my-product".to_string(), "1.2.3".to_string(), None)), 1 => Some(("my-product".to_string(), "1.2.3".to_string(), Some("9.9.9-rc1".to_string()))), _ => None }, bare: rng.chance(1, 2) }
     };
     let mut n = 0;
     for (name, ir) in &fixed {
